@@ -1444,7 +1444,7 @@ class MatlabWrapper(CheckMixin, FormatMixin):
             is_static_method = isinstance(extra, parser.StaticMethod)
             is_property = isinstance(extra, parser.Variable)
 
-            if collector_func[2] == 'collectorInsertAndMakeBase':
+            if collector_func[2] == 'collectorInsertAndMakeBase' and extra is None:
                 body += textwrap.indent(textwrap.dedent('''\
                     mexAtExit(&_deleteAllObjects);
                     typedef std::shared_ptr<{class_name_sep}> Shared;\n
@@ -1462,7 +1462,8 @@ class MatlabWrapper(CheckMixin, FormatMixin):
                     ''').format(collector_func[1].parent_class),
                                             prefix='  ')
 
-            elif collector_func[2] == 'constructor':
+            elif collector_func[2] == 'constructor' and isinstance(
+                    extra, parser.Constructor):
                 base = ''
                 params, body_args = self._wrapper_unwrap_arguments(
                     extra.args, instantiated_class=collector_func[1])
@@ -1488,7 +1489,7 @@ class MatlabWrapper(CheckMixin, FormatMixin):
                                       class_name=class_name,
                                       base=base)
 
-            elif collector_func[2] == 'deconstructor':
+            elif collector_func[2] == 'deconstructor' and extra is None:
                 body += textwrap.indent(textwrap.dedent('''\
                     typedef std::shared_ptr<{class_name_sep}> Shared;
                     checkArguments("delete_{class_name}",nargout,nargin,1);
